@@ -539,3 +539,117 @@ def obligations(timeout_ms=10000):
     for i_, ((kind, text), (st_, line)) in enumerate(sorted(seen.items())):
         add('%s#%d' % (kind, i_), kind, st_, text, line)
     return obs
+
+
+# ------------------------------ the loop that expands the PWL inequalities
+#   for i in pwl_ineqs:
+#       pwl_ineqs[i], caux, newvars = i._aslinearineq()
+#       aux_ineqs += caux
+#       aux_variables += newvars
+# Contract: for every piecewise-linear inequality i the three lists of ITS
+# expansion go to pwl_ineqs[i] (the pieces whose multipliers mmap sums, 8.16),
+# aux_ineqs and aux_variables respectively; nothing else changes.
+class PwlKey(Con):
+    def __init__(self):
+        Con.__init__(self, 'i', 0)
+
+
+class PwlMap(Abs):
+    def abs_setitem(self, ex, st, idx, v, s):
+        st.ghost['pwl_stores'] = st.ghost.get('pwl_stores', ()) + ((idx, v),)
+
+    def abs_loop(self, ex, st, s, fid):
+        sink = st.ghost['sink']
+        key = PwlKey()
+        b = st.copy()
+        b.ghost['pwl_stores'] = ()
+        ex.assign(b, fid, s.target, key, s)
+        before = dict(b.ghost.get('grow', {}))
+        n = 0
+        for o in ex.exec_block(s.body, b, fid):
+            if o.kind not in ('fall', 'continue'):
+                sink.append(('epigraph-constraints', list(o.st.pc),
+                             z3.BoolVal(False), 'the loop over the '
+                             'piecewise-linear inequalities has no early '
+                             'exit (%s)' % o.kind, s.lineno))
+                continue
+            n += 1
+            after = o.st.ghost.get('grow', {})
+            d = {nm: after.get(nm, ())[len(before.get(nm, ())):]
+                 for nm in ('aux_ineqs', 'aux_variables')}
+            ps = o.st.ghost.get('pwl_stores', ())
+            ok = len(ps) == 1 and ps[0][0] is key and isinstance(
+                ps[0][1], Exp) and ps[0][1].which == 'ineqs' and \
+                ps[0][1].con is key and len(d['aux_ineqs']) == 1 and \
+                isinstance(d['aux_ineqs'][0], Exp) and \
+                d['aux_ineqs'][0].which == 'aux_ineqs' and \
+                d['aux_ineqs'][0].con is key and \
+                len(d['aux_variables']) == 1 and isinstance(
+                    d['aux_variables'][0], Exp) and \
+                d['aux_variables'][0].which == 'aux_vars' and \
+                d['aux_variables'][0].con is key
+            sink.append(('epigraph-constraints', list(o.st.pc),
+                         z3.BoolVal(ok), 'for every piecewise-linear '
+                         'inequality i the three lists of i._aslinearineq() '
+                         'go to pwl_ineqs[i], aux_ineqs and aux_variables '
+                         'respectively, and nothing else changes',
+                         s.lineno))
+        sink.append(('covered', [], z3.BoolVal(n >= 1), 'the body of the '
+                     'loop over the piecewise-linear inequalities falls '
+                     'through', s.lineno))
+        return [Outcome('fall', st.copy())]
+
+
+def pwl_loop_obligations(timeout_ms=10000):
+    tree, src = driver.load_module('modeling.py')
+    obs, sink = [], []
+
+    def add(oid, kind, status, text, line=0, detail=None):
+        obs.append({'id': 'modeling.py:op._inmatrixform:%s:pwl-loop:%s' % (
+            kind, oid), 'kind': kind, 'status': status, 'text': text,
+            'line': line, 'model': None, 'detail': detail,
+            'by': ['z3'] if status == 'proved' else []})
+    fn = None
+    for c_ in tree.body:
+        if isinstance(c_, ast.ClassDef) and c_.name == 'op':
+            for m_ in c_.body:
+                if isinstance(m_, ast.FunctionDef) and \
+                        m_.name == '_inmatrixform':
+                    fn = m_
+    if fn is None:
+        raise KeyError('op._inmatrixform')
+    loops = [s for s in fn.body if isinstance(s, ast.For) and ast.unparse(
+        s.iter) == 'pwl_ineqs' and any(
+            isinstance(x, ast.Call) and isinstance(x.func, ast.Attribute)
+            and x.func.attr == '_aslinearineq' for x in ast.walk(s))]
+    if len(loops) != 1:
+        add('anchor', 'epigraph-constraints', 'undecided', 'the loop that '
+            'expands the piecewise-linear inequalities was found once (%d)'
+            % len(loops))
+        return obs
+    loop = loops[0]
+    ex = core.Executor(tree, 'cvxopt.modeling', L, {
+        'body_slice': lambda f: [loop], 'unroll': 8})
+
+    def setup(ex_, st, fid, f_):
+        fr = st.frames[fid]
+        fr['pwl_ineqs'] = PwlMap()
+        fr['aux_ineqs'] = Grow('aux_ineqs')
+        fr['aux_variables'] = Grow('aux_variables')
+        st.ghost.update({'sink': sink, 'frame_check': False})
+    ex.find_function('op._inmatrixform')
+    try:
+        ex.run_function('op._inmatrixform', setup)
+    except Unsupported as e:
+        add('supported', 'epigraph-constraints', 'undecided', 'the loop that '
+            'expands the piecewise-linear inequalities is inside the '
+            'supported subset', detail=str(e))
+        return obs
+    for i_, (kind, pc, goal, text, line) in enumerate(sink):
+        r = ex.check(pc, [z3.Not(goal)], timeout=timeout_ms)
+        st_ = 'proved' if r == z3.unsat else ('refuted' if r == z3.sat
+                                              else 'undecided')
+        if kind == 'covered' and st_ != 'proved':
+            st_ = 'undecided'
+        add('%s#%d' % (kind, i_), kind, st_, text, line)
+    return obs
